@@ -10,9 +10,9 @@ from ..model import flatten as F
 
 ID = "C04"
 RULE = ("random rule trees: depth <= 4, width <= 3, selector lists with `&` alone, as suffix (&-s, &.t, &:hover), repeated "
-        "(& + &), inside a complex selector (.x &, & > y), leading combinators, declarations before and after nested "
+        "(& + &), inside a complex selector (.x &, & > y), as the argument of :not()/:is()/:where(), with pseudo-element / attribute / :not() suffixes, leading combinators, declarations before and after nested "
         "rules and bubbling at-rules, nested properties, @media (mergeable and unmergeable nestings), @supports, unknown "
-        "at-rules, @at-root with every with/without query; printed as SCSS and indented, both styles sampled. "
+        "at-rules, @at-root with every with/without query and in its selector form; printed as SCSS and indented, both styles sampled. "
         "non-trivial = >= 2 nesting levels and >= 2 output blocks; distinct = distinct source texts.")
 ASSUMPTIONS = ["trees outside the reference flattener's fragment (Unsupported) are inconclusive",
                "blocks are compared in order after dropping declaration-less blocks; selectors/queries compared in canonical spelling"]
